@@ -892,6 +892,11 @@ func (b *levelBucket) NewIterator(slice *db.Range) db.Iterator {
 	} else {
 		slice.Limit = b.innerKeyForIterator(slice.Limit)
 	}
+	// An inverted range (limit below start) is empty. It must not reach goleveldb, which slices
+	// its table index by both bounds and panics once a level holds several tables.
+	if slice.Limit != nil && bytes.Compare(slice.Limit, slice.Start) < 0 {
+		slice.Limit = slice.Start
+	}
 
 	it := &levelIterator{
 		b:       b,
